@@ -250,7 +250,8 @@ def compare_stored(before, after):
         ld = list(leaf_diff(jclone(da), jclone(db)))
         if ld:
             verdict = 'different'
-            details.append({'file': name, 'diff': [{'path': p, 'before': x, 'after': y} for p, x, y in ld[:20]]})
+            details.append({'file': name, 'n_diff': len(ld),
+                            'diff': [{'path': p, 'before': x, 'after': y} for p, x, y in ld[:20]]})
         else:
             details.append({'file': name, 'what': 'same document, different spelling/order'})
     return verdict, details
